@@ -362,9 +362,12 @@ impl ReceiveChannelReliable {
             .entry(slice.message_id)
             .or_insert_with(|| SliceConstructor::new(slice.message_id, slice.num_slices));
 
+        // Use the number of slices that was reserved when the first slice arrived,
+        // later slices could announce a different value.
+        let num_slices = slice_constructor.num_slices;
         if let Some(message) = slice_constructor.process_slice(slice.slice_index, &slice.payload)? {
             // Memory usage is re-added with the exactly message size
-            self.memory_usage_bytes -= slice.num_slices * SLICE_SIZE;
+            self.memory_usage_bytes -= num_slices * SLICE_SIZE;
             self.process_message(message, slice.message_id)?;
             self.slices.remove(&slice.message_id);
         }
